@@ -319,7 +319,12 @@ func c03Closer(c *Ctx, p *Prog, cio *connIO, wrap, d *ssa.Function, hcalls []ssa
 				consts = append(consts, x.Int64())
 			}
 		case *ssa.Parameter:
-			if !isNamedType(x.Type(), "time", "Time") && !isNamedType(x.Type(), "time", "Duration") {
+			// a pointer to a module struct is only a base for field loads, each of which is judged on its own
+			isObj := false
+			if pt, ok := x.Type().Underlying().(*types.Pointer); ok && namedStruct(pt.Elem()) {
+				isObj = true
+			}
+			if !isObj && !isNamedType(x.Type(), "time", "Time") && !isNamedType(x.Type(), "time", "Duration") {
 				bad = fmt.Sprintf("parameter %s of %s", x.Name(), p.FuncKey(x.Parent()))
 			}
 		case *ssa.BinOp, *ssa.Convert, *ssa.ChangeType, *ssa.Phi:
@@ -339,7 +344,9 @@ func c03Closer(c *Ctx, p *Prog, cio *connIO, wrap, d *ssa.Function, hcalls []ssa
 			case "time.Now":
 				timeNows = append(timeNows, x)
 			default:
-				bad = "call to " + p.CalleeID(x.Common()) + " at " + p.Pos(x.Pos())
+				if !sl.Descended[x] { // a module helper whose body was followed is transparent
+					bad = "call to " + p.CalleeID(x.Common()) + " at " + p.Pos(x.Pos())
+				}
 			}
 		default:
 			bad = fmt.Sprintf("%T at %s", v, p.Pos(v.Pos()))
@@ -392,30 +399,30 @@ func c03Closer(c *Ctx, p *Prog, cio *connIO, wrap, d *ssa.Function, hcalls []ssa
 			ob.HoldNT("dominated by the discard copy at %s", p.InstrPos(cp))
 			continue
 		}
-		fs := ff.NC(r.Block())
-		ok := false
-		why := ""
-		for _, f := range fs {
+		// every path from the entry to this return crosses one of: the edge
+		// "time.Now().After(deadline)" true, the edge "SetReadDeadline failed",
+		// or the discard copy
+		isExitEdge := func(from, to *ssa.BasicBlock) bool {
+			f, k := edgeFact(from, to)
+			if !k {
+				return false
+			}
 			if call, k := p.FactCallBool(f, "(time.Time).After"); k && f.Pol {
-				// time.Now().After(deadline)
-				recvNow := false
-				if rc, _ := callOf(call.Common().Args[0]); rc != nil && p.CalleeID(rc.Common()) == "time.Now" {
-					recvNow = true
-				}
-				if recvNow && call.Common().Args[1] == dl {
-					ok, why = true, "time.Now().After(deadline)"
+				if rc, _ := callOf(call.Common().Args[0]); rc != nil && p.CalleeID(rc.Common()) == "time.Now" && unspill(call.Common().Args[1]) == unspill(dl) {
+					return true
 				}
 			}
 			if x, isNil, k := FactNilCmp(f); k && !isNil {
 				if cc, _ := callOf(unspill(x)); cc != nil && cc == rd.(*ssa.Call) {
-					ok, why = true, "SetReadDeadline failed"
+					return true
 				}
 			}
+			return false
 		}
-		if ok {
-			ob.HoldNT("%s", why)
-		} else {
+		if reachableAvoiding(d, r.Block(), isExitEdge, func(b *ssa.BasicBlock) bool { return b == cp.Block() }) {
 			ob.Violate("this return is reachable without the deadline having passed, arming having failed, or the discard copy having run")
+		} else {
+			ob.HoldNT("every path to it crosses time.Now().After(deadline), a failed SetReadDeadline, or the discard copy")
 		}
 	}
 	// deferred close exists
@@ -479,4 +486,37 @@ func c03CloseDelay(c *Ctx, p *Prog) {
 		return
 	}
 	o.HoldNT("single store in %s from Intn(60) on rand.New(NewHashDrbg(st.drbgSeed))", p.FuncKey(s.Fn))
+}
+
+// reachableAvoiding: target is reachable from fn's entry along a path that
+// uses no edge for which cutEdge holds and does not leave a block for which
+// cutBlock holds.
+func reachableAvoiding(fn *ssa.Function, target *ssa.BasicBlock, cutEdge func(from, to *ssa.BasicBlock) bool, cutBlock func(b *ssa.BasicBlock) bool) bool {
+	if len(fn.Blocks) == 0 {
+		return false
+	}
+	seen := map[*ssa.BasicBlock]bool{}
+	var walk func(b *ssa.BasicBlock) bool
+	walk = func(b *ssa.BasicBlock) bool {
+		if seen[b] {
+			return false
+		}
+		seen[b] = true
+		if cutBlock != nil && cutBlock(b) {
+			return false
+		}
+		if b == target {
+			return true
+		}
+		for _, s := range b.Succs {
+			if cutEdge != nil && cutEdge(b, s) {
+				continue
+			}
+			if walk(s) {
+				return true
+			}
+		}
+		return false
+	}
+	return walk(fn.Blocks[0])
 }
